@@ -1679,9 +1679,12 @@ func (db *DB) checkDatabaseBehindReplica(ctx context.Context) error {
 	}
 	defer func() { _ = os.Remove(tmpPath) }() // Clean up temp file on error
 
-	if _, err := io.Copy(tmpFile, reader); err != nil {
+	if n, err := io.Copy(tmpFile, reader); err != nil {
 		_ = tmpFile.Close()
 		return fmt.Errorf("copy L0 file: %w", err)
+	} else if replicaInfo.Size > 0 && n != replicaInfo.Size {
+		_ = tmpFile.Close()
+		return fmt.Errorf("copy L0 file: short read, %d of %d bytes", n, replicaInfo.Size)
 	}
 
 	if err := tmpFile.Sync(); err != nil {
